@@ -22,6 +22,7 @@ def parse_io_trace(path):
         elif k == 'A': evs.append({'k': 'A', 'call': int(a[1]), 'op': a[2]})
         elif k == 'Z': evs.append({'k': 'Z', 'call': int(a[1]), 'op': a[2]})
         elif k == 'F': evs.append({'k': 'F', 'idx': int(a[1]), 'what': a[2], 'name': a[3], 'errno': a[4]})
+        elif k == 'I': evs.append({'k': 'I', 'idx': int(a[1]), 'what': a[2], 'name': a[3]})
     return evs
 
 IGNORED = ('LOG', 'LOG.old', 'LOCK')
@@ -90,7 +91,7 @@ def materialise(img, shadow, dst, extra_cut=None):
 # ------------------------------------------------------------------ histories with marker keys
 def khex(b): return b.hex() if b else '-'
 
-def gen_write_history(rng, nops=40, sync_ratio=(1, 3), big_batches=False, reopen=True):
+def gen_write_history(rng, nops=40, sync_ratio=(1, 3), big_batches=False, reopen=True, more_gets=False):
     """returns (ops, batches): batches[i] = {'op_index', 'sync', 'updates': [(key, valtok|None)]}"""
     keys = [b'a', b'b', b'ab', b'ba', b'\xffk', b'', b'q' * 30]
     ops = ['open']; batches = []
@@ -117,6 +118,8 @@ def gen_write_history(rng, nops=40, sync_ratio=(1, 3), big_batches=False, reopen
         elif c < 18: ops.append('compact * *')
         elif c < 19 and reopen: ops.append('reopen')
         else: ops.append('get %s -' % khex(rng.choice(keys)))
+        if more_gets and rng.chance(1, 3):
+            ops.append('get %s -' % khex(rng.choice(keys)))
     return ops, batches
 
 def apply_batches(batches, subset):
@@ -127,12 +130,13 @@ def apply_batches(batches, subset):
             else: m[k] = v
     return m
 
-def run_traced(k3, dbdir, opts, ops, workdir, fail=None, timeout=600):
+def run_traced(k3, dbdir, opts, ops, workdir, fail=None, timeout=600, logidx=False):
     if os.path.exists(dbdir): shutil.rmtree(dbdir)
     tr = os.path.join(workdir, 'trace'); sh = os.path.join(workdir, 'shadow')
     if os.path.exists(sh): shutil.rmtree(sh)
     env = dict(os.environ, K3_TRACE=tr, K3_SHADOW=sh)
     if fail: env['K3_FAIL'] = fail
+    if logidx: env['K3_LOGIDX'] = '1'
     args = [k3, dbdir] + ['%s=%s' % kv for kv in sorted(opts.items())]
     try:
         r = subprocess.run(args, input=('\n'.join(ops) + '\n').encode(), capture_output=True, timeout=timeout, env=env)
